@@ -78,7 +78,8 @@ func tlcpHandshake(cn Conn, ccache, scache Cache[*tlcp.SessionState], seed uint6
 		}
 		return nil
 	}
-	c, sv, ce, se, r := pair.TLCP(ccfg, scfg, func(ce, se *pair.StreamEnd) {
+	ce, se := pair.StreamPipe()
+	func(ce, se *pair.StreamEnd) {
 		ce.SetAddrs("client:1", tlcpDstKey(dst))
 		damage := func(data []byte) [][]byte {
 			if tlcpHasCCS(data) {
@@ -102,7 +103,10 @@ func tlcpHandshake(cn Conn, ccache, scache Cache[*tlcp.SessionState], seed uint6
 				return [][]byte{data}
 			}
 		}
-	})
+	}(ce, se)
+	c := tlcp.Client(ce, ccfg)
+	sv := tlcp.Server(se, scfg)
+	r := runPair(c.Handshake, sv.Handshake, func() { ce.Close(); se.Close() }, 20*time.Second)
 	h := HS{CErr: r.CErr, SErr: r.SErr}
 	if r.TimedOut {
 		h.CErr, h.SErr = pair.ErrTimeout, pair.ErrTimeout
@@ -117,11 +121,12 @@ func tlcpHandshake(cn Conn, ccache, scache Cache[*tlcp.SessionState], seed uint6
 	h.CResumed, h.SResumed = cst.DidResume, sst.DidResume
 	h.Suite, h.SSuite = cst.CipherSuite, sst.CipherSuite
 	if len(cst.PeerCertificates) > 0 {
-		h.PeerDER = cst.PeerCertificates[0].Raw
+		h.PeerDER = rawOf(cst.PeerCertificates[0])
 	}
 	if len(sst.PeerCertificates) > 0 {
-		h.SPeerDER = sst.PeerCertificates[0].Raw
+		h.SPeerDER = rawOf(sst.PeerCertificates[0])
 	}
+	h.CPeer = func() []*smx509.Certificate { return c.ConnectionState().PeerCertificates }
 	h.SVerified = len(sst.VerifiedChains) > 0
 	h.VPC, h.VC = vpc, vc
 	cf, sf := tlcp.VerifFinished(c)
